@@ -61,8 +61,35 @@ def run(tier, seed):
         summary = json.load(open(os.path.join(out, "summary.json")))
     finally:
         shutil.rmtree(out, ignore_errors=True)
-    rc, cout, q, path = vlib.eval_cases(PID, tier, HEADER, cases_v, QUERIES, timeout=3000)
-    vals = {k: vlib.parse_nat_list(v) for k, v in q.items()}
+    # shard the (large) micro case list: Coq's parser overflows its stack on
+    # lists of > ~100k elements, and shards evaluate in parallel
+    head, items, tail = vlib.split_list_def(cases_v, "micro_cases")
+    rest = cases_v.replace(vlib.join_list_def(head, items, tail), "")
+    per = 12000
+    shards = [(off, items[off:off + per]) for off in range(0, max(len(items), 1), per)]
+    micro_q = [x for x in QUERIES if x[0] in ("Mmicro", "Omicro", "Omono")]
+    other_q = [x for x in QUERIES if x[0] not in ("Mmicro", "Omicro", "Omono")]
+
+    def ev(arg):
+        i, (off, its) = arg
+        # one element of overlap so that the monotonicity oracle sees every adjacent pair
+        its2 = ([items[off - 1]] if off > 0 else []) + its
+        text = vlib.join_list_def(head, its2, tail) + (rest if i == 0 else "")
+        rc, cout, q, path = vlib.eval_cases(PID, "%s%d" % (tier, i), HEADER, text, micro_q + (other_q if i == 0 else []), timeout=3000)
+        return rc, cout, {k: vlib.parse_nat_list(v) for k, v in q.items()}, path, off - (1 if off > 0 else 0)
+
+    import concurrent.futures
+    with concurrent.futures.ThreadPoolExecutor(max_workers=min(len(shards), vlib.NCPU)) as ex:
+        results = list(ex.map(ev, enumerate(shards)))
+    vals = {k: [] for k, _ in QUERIES}
+    rc, cout, path = 0, "", results[0][3]
+    for r_rc, r_out, r_vals, _, base in results:
+        if r_rc != 0 or any(v is None for v in r_vals.values()):
+            rc, cout = (r_rc or 1), r_out
+            vals = {k: None for k in vals}
+            break
+        for k, v in r_vals.items():
+            vals[k] += [base + x for x in v] if k in ("Mmicro", "Omicro", "Omono") else v
     n_eval = summary["micro"] + summary["from"] + summary["timer"]
     res.coverage.update({
         "evaluations": n_eval,
